@@ -249,6 +249,13 @@ class C15(Prop):
             out.append(("random", c))
             if rng.random() < 0.25:
                 out.append(("random-same-data", {**c, "same": True}))
+        # long lists: hundreds of events on either side, and a few list-two events spanning hundreds of list-one events
+        for n in ([150, 400] if ctx.quick else [150, 257, 400, 1025]):
+            base = rng.randint(0, 10**9)
+            pool = sorted({base + rng.randint(0, 40 * n) * 1000 for _ in range(4 * n)})
+            out.append(("long", {"u": 1000, "l1": chain_from(pool, n, False), "l2": chain_from(pool, n, False)}))
+            out.append(("long", {"u": 1000, "l1": chain_from(pool, n, False), "l2": chain_from(pool, 3, False)}))
+            out.append(("long", {"u": 1000, "l1": chain_from(pool, 3, False), "l2": chain_from(pool, n, False)}))
         for _ in range(ctx.pick(300, 10000)):
             # one event spanning many, either way round
             k = rng.randint(2, 20)
